@@ -4,7 +4,8 @@ import ast
 from sa.algebra import Evaluator, Poly, Undecided
 from sa.calls import bind, is_name
 from sa.cfg import CFG, conjuncts
-from sa.common import chain_root, expand_name, resolved_calls, returns_of
+from sa import guards as G
+from sa.common import chain_root, expand_name, resolved_calls, returns_of, value_alternatives
 from sa.defuse import DefUse, loc_name
 from sa.model import AnalysisError, AnchorMissing, const_value, src, walk_function
 from sa.struct import call_name, find, kwarg, norm
@@ -261,19 +262,24 @@ def d3_outside_brain(ctx):
                 continue
             tgt = st.targets[0]
             same = norm(tgt) == norm(arg) and isinstance(tgt.slice, ast.Tuple)
-            sel = loc_name(tgt.slice.elts[0]) if same else None
-            sd = du.strong_reaching(sel, st) if sel else []
+            sel_e = tgt.slice.elts[0] if same else None
+            sel = loc_name(sel_e) if sel_e is not None else None
+            # the row selector: a local (its reaching definitions) or the selecting expression written in place
+            if sel:
+                sd = [(d.value, d.node) for d in du.strong_reaching(sel, st)]
+            else:
+                sd = [(sel_e, cfg.node_for(st))] if sel_e is not None else []
             kinds = []
-            for d in sd:
+            for dv, dn in sd:
                 dg = []
-                for t, pol in cfg.guards(d.node):
+                for t, pol in cfg.guards(dn):
                     dg += conjuncts(t, pol)
-                if _is_where_not3(d.value):
+                if _is_where_not3(dv):
                     kinds.append("inside")
-                elif _is_all_rows(d.value) and not _labels_given(dg):
+                elif _is_all_rows(dv) and not _labels_given(dg):
                     kinds.append("all-unlabelled")
                 else:
-                    kinds.append("other:" + (src(d.value)[:40] if d.value is not None else "?"))
+                    kinds.append("other:" + (src(dv)[:40] if dv is not None else "?"))
             ok = same and bool(sd) and all(k in ("inside", "all-unlabelled") for k in kinds) and "inside" in kinds
             n += 1
             ctx.check(ok, fi, st, st, "outside-brain channels (label 3) neither feed nor receive the spatial filter",
@@ -301,22 +307,37 @@ def d4_car_table(ctx):
     ctx.rule("D4", "car: 'median' -> x - np.median(x, axis=0); 'average' -> x - np.mean(x, axis=0)")
     repo = ctx.repo
     fi = repo.fn(MOD + ".car")
-    cfg = CFG(fi.node)
-    got = {}
-    for st in walk_function(fi.node):
-        if isinstance(st, ast.Assign) and loc_name(st.targets[0]) == "x" and isinstance(st.value, ast.BinOp) and isinstance(st.value.op, ast.Sub):
-            gs = [src(t) for t, pol in cfg.guards(cfg.node_for(st)) if pol]
-            key = "median" if any("'median'" in g for g in gs) else "average" if any("'average'" in g for g in gs) else None
-            r = st.value.right
-            if isinstance(r, ast.Call) and loc_name(st.value.left) == "x" and loc_name(r.args[0]) == "x":
-                got[key] = (call_name(r), const_value(kwarg(r, "axis"))[1], st)
-    want = {"median": ("median", 0), "average": ("mean", 0)}
-    for k, (fn, ax) in want.items():
-        g = got.get(k)
-        ctx.check(g is not None and g[:2] == (fn, ax), fi, g[2] if g else fi.node, f"{k}: {g[:2] if g else None}", f"'{k}' subtracts np.{fn} over channels",
-                  f"operator '{k}' is implemented as {g[:2] if g else 'nothing'}; expected x - np.{fn}(x, axis=0)", key="car:" + k)
-    rets = returns_of(fi.node)
-    ctx.check(all(loc_name(r.value) in ("x", "xout") for r in rets), fi, fi.node, "return x", "referenced data is returned", "car does not return the referenced data", key="car:ret")
+    du = DefUse(fi.node)
+    # every value the function can return, with the branch predicates under which it is returned
+    table = []
+    for r in returns_of(fi.node):
+        if r.value is None:
+            ctx.violation(fi, r, r, "car returns nothing on this path", key="car:ret")
+            continue
+        for gs, v in value_alternatives(du, r.value, r, keep=("xout",)):
+            at = G.Atoms()
+            pc = G.And(*[G.formula(t, at, pol) for t, pol in gs])
+            table.append((pc, v, r))
+    want = {"median": "median", "average": "mean"}
+    seen = set()
+    for pc, v, r in table:
+        if G.satisfiable(pc) is False:
+            continue
+        op = next((k for k in want if G.entails(pc, G.Atom(f"operator == '{k}'")) is True or G.entails(pc, G.Atom(f"'{k}' == operator")) is True), None)
+        if op is None:
+            # no operator selected on this path: the data (or the per-collection output) is returned as it is
+            ctx.check(loc_name(v) in ("x", "xout"), fi, r, f"otherwise: {src(v)}", "without a known operator the data is returned unchanged",
+                      f"car returns `{src(v)}` on a path where no operator is selected", key="car:ret")
+            continue
+        seen.add(op)
+        fn = want[op]
+        ok = isinstance(v, ast.BinOp) and isinstance(v.op, ast.Sub) and loc_name(v.left) == "x" and isinstance(v.right, ast.Call) \
+            and call_name(v.right) == fn and v.right.args and loc_name(v.right.args[0]) == "x" and const_value(kwarg(v.right, "axis")) == (True, 0)
+        ctx.check(ok, fi, r, f"{op}: {src(v)}", f"'{op}' subtracts np.{fn} over channels",
+                  f"operator '{op}' is implemented as `{src(v)}`; expected x - np.{fn}(x, axis=0)", key="car:" + op)
+    for k in want:
+        ctx.check(k in seen, fi, fi.node, f"{k} branch", f"operator '{k}' has a branch", f"operator '{k}' is implemented as nothing; expected x - np.{want[k]}(x, axis=0)",
+                  key="car:" + k)
 
 
 def d5_agc(ctx):
